@@ -7,7 +7,12 @@ inside catch_unwind (debug build; thorough: also the release build, which aborts
 ELF64 / PE files over all section-table layouts, payload sizes, truncations and field corruptions; the
 extracted model answers the same lines and must agree byte for byte.  The property oracle is written
 in python from the property text (tools/exe_lib.py parsers) and looks only at what the implementation
-did.  Real-binary leg: the freshly built rjrssync is augmented by the real code and executed."""
+did.  Real-binary leg: the freshly built rjrssync is augmented by the real code and executed.
+Deployment leg (both tiers): the real CLI deploys through a fake ssh/scp (tools/deploy_lib.py: OpenSSH mode
+semantics, a real shell on the remote side) to sandboxed remotes that report the native or another platform, so
+both staging paths of create_binary_for_target run; the deployed file must be executable, start, announce the
+parent's version, list the parent's embedded binaries and be byte for byte what the specification says; the
+commands and file modes the fake tools saw are compared with Model/DeployFile.v (extracted)."""
 import os, sys, json, struct, tempfile, shutil, subprocess, hashlib, glob, time
 import vlib
 import exe_lib as X
@@ -680,7 +685,9 @@ def check_deployed_bytes(parent, kind, ctx, deployed):
     """-> error text or None.  `deployed`: bytes of the file found on the remote."""
     how, cands = expected_deployed(parent, kind, ctx)
     if how == 'self':
-        if deployed != open(parent['path'], 'rb').read():
+        if 'sha' not in parent:
+            parent['sha'] = D.sha_file(parent['path'])
+        if D.sha(deployed) != parent['sha']:
             return 'the remote platform is the native one, but the deployed file is not a copy of the running program'
         return None
     if how == 'none':
@@ -759,6 +766,7 @@ def run_deploy_scenario(run, ctx, sc, idx):
             pass
         so, se = p.communicate()
     rc = p.returncode
+    ctx['t_cli'] = ctx.get('t_cli', 0) + time.time() - t0
     so, se = so.decode('utf-8', 'replace'), se.decode('utf-8', 'replace')
     log = D.read_log(logf)
     run.count('deploy:%s:%s' % (ctx['label'], '+'.join('%s/%s/%s' % (sc['parent'], h['kind'], h['state']) for h in sc['hosts'])))
@@ -841,17 +849,19 @@ def deploy_leg(run, lite, jbin, tmp, label, only=None):
            'fakebin': D.install_tools(os.path.join(tmp, 'fake_' + label))}
     t0 = time.time()
     ctx['parents'] = build_parents(run, lite, tmp, label, __import__('random').Random(7))
+    t_par = time.time() - t0
     scs = only if only is not None else deploy_scenarios(run, run.tier)
     for i, sc in enumerate(scs):
         run_deploy_scenario(run, ctx, sc, i)
-    vlib.log('deploy leg %s: %d scenarios %.1fs (native triple %s)' % (label, len(scs), time.time() - t0, ctx['native']))
+    vlib.log('deploy leg %s: %d scenarios %.1fs (parents %.1fs, CLI runs %.1fs; native triple %s)' % (label, len(scs), time.time() - t0, t_par, ctx.get('t_cli', 0), ctx['native']))
     run.notes.append('deploy leg (%s build): %d scenarios through fake ssh/scp; native triple %s' % (label, len(scs), ctx['native']))
 
 
 # ------------------------------------------------------------------------------------------------
 def check(run, only=None, deploy_only=None):
     run.trusted = list(vlib.COMMON_TRUSTED) + [
-        'modelled, not verified: the ELF and PE loaders (the theorems state which bytes and headers are preserved; that the augmented program runs is checked by executing the augmented rjrssync itself), memory exhaustion (generated FileAlignment values stay below 1 MiB), ssh/scp (faked in the deploy leg)',
+        'modelled, not verified: the ELF and PE loaders (the theorems state which bytes and headers are preserved; that the augmented program runs is checked by executing the augmented rjrssync itself), memory exhaustion (generated FileAlignment values stay below 1 MiB)',
+        'deployment leg: ssh, scp, chmod +x and execve are not code of the repository; Model/DeployFile.v models their documented permission-bit behaviour (scp without -p: new file = source mode masked by the remote umask, existing file keeps its mode; chmod +x adds the unmasked x bits; exec needs an x bit) and tools/deploy_lib.py implements the same (python scp, real bash/chmod/exec under the remote umask). No real remote, no Windows/PE execution (a generated PE is checked byte-wise only)',
         'python readers of ELF64/PE in tools/exe_lib.py (property oracle)']
     run.assumptions = ['usize is 64 bit (the model uses 2^64 for usize arithmetic; the harness runs on x86_64)',
                        'Vec lengths stay below 2^63, so read_string cannot overflow its index']
@@ -859,7 +869,10 @@ def check(run, only=None, deploy_only=None):
                          'with/without null section, varying gaps; PE files: FileAlignment in {1..4096 incl. non powers of two} x header gap {0..80} x 1..5 sections, varying SectionAlignment / optional header size / e_lfanew; '
                          'payloads 0 B .. 3 MiB; every add that succeeds is followed by an extraction from the produced file and sometimes a second add; names around the 8/32 byte caps; '
                          'malformed: truncations at every (quick: every third) length, single-field corruptions with boundary values, random strings with valid magic, random byte mutations; '
-                         'a case is non-trivial when it is malformed or the implementation produced a file / read a payload back; distinct by (mode, op, sha1 of the file, name, payload)')
+                         'a case is non-trivial when it is malformed or the implementation produced a file / read a payload back; distinct by (mode, op, sha1 of the file, name, payload); '
+                         'deployment scenarios: parent {built binary, + uncompressed table, + compressed table} x remote {x86_64 = native: copy of the running program; aarch64: generated ELF; Windows AMD64: generated PE, bytes only} '
+                         'x remote state {absent, empty folder, other version, same version, same version without x bit} x --deploy {ok, force, prompt answered} x remote side {dest, src, both on two hosts} '
+                         'x umasks of boss and remote x TMPDIR (default, with a space, nested, non-ASCII): 9 fixed + 3 random + 1 two-host scenario (thorough: 9 + 30 + 3, debug and release builds)')
     binary = vlib.build_impl()
     vlib.regen_facts(binary)
     run.check_proofs('C19', THEOREMS, extra_targets=['theories/Extract/Ex_exe.vo'])
